@@ -186,6 +186,8 @@ def table() -> dict[str, Prop]:
              not_decided="the growth law itself (work per character as the input doubles) and regex backtracking inside `re`"))
     # rules shared across properties (appended here because their modules are imported above)
     props["C01"].rules.append(GD.rule_guard)           # cap branch must consume its range (else: non-termination)
+    props["C03"].rules.append(TT.rule_unisplit)        # lines are split at LF only (no Unicode-aware splitlines on the source)
+    props["C17"].rules.append(TT.rule_unisplit)
     props["C11"].rules.append(SW.rule_fanout)          # the same coherence through the facade
     props["C14"].rules.append(RR.rule_swallow)         # an exception from user code propagates
     props["C14"].rules.append(SW.rule_fanout)          # reset_rules restores all four rulers with enableOnly
